@@ -196,25 +196,39 @@ Proof.
   split; [exact Hs | apply strict_wf; exact Hs].
 Qed.
 
-(* the scaling loop of FormulaGrader.raw_check keeps a not-ok result consistent EXCEPT when a partial-credit verdict
-   meets a zero-credit answer *)
-Lemma scale_raw_failing_strict : forall c v,
-  cfn_unit v -> 0 <= c <= 1 -> (0 < c \/ cfn_crisp v) ->
-  e_ok (standardize v) <> OkTrue -> strict_entry (scale_raw c (standardize v)).
+Lemma scale_raw_unit : forall rc c v, cfn_unit v -> 0 <= c <= 1 -> 0 <= e_grade (scale_raw rc c (standardize v)) <= 1.
+Proof. intros rc c v Hv Hc. destruct v; simpl in *; nra. Qed.
+
+(* the scaling loop of FormulaGrader.raw_check keeps a not-ok result consistent EXCEPT (code as found, rc = false) when a
+   partial-credit verdict meets a zero-credit answer; the repaired loop (rc = true) re-derives ok for every not-ok result *)
+Lemma scale_raw_failing_strict : forall rc c v,
+  cfn_unit v -> 0 <= c <= 1 -> (rc = true \/ 0 < c \/ cfn_crisp v) ->
+  e_ok (scale_raw rc c (standardize v)) <> OkTrue -> strict_entry (scale_raw rc c (standardize v)).
 Proof.
-  intros c v Hv Hc Hside Hnt. destruct v as [| | |g m]; simpl in *.
-  - congruence.
-  - split; simpl; [lra | symmetry; apply grade_to_ok_0; lra].
-  - destruct Hside as [Hpos | []]. split; simpl; [nra | symmetry; apply grade_to_ok_mid; nra].
-  - assert (Hg1 : ~ g == 1). { intro E. apply Hnt. apply grade_to_ok_1. exact E. }
-    split; simpl; [nra|].
-    destruct (Qeq_dec g 0) as [G0 | G0].
-    + rewrite (grade_to_ok_0 g G0). symmetry. apply grade_to_ok_0. rewrite G0. ring.
-    + assert (Hgm : 0 < g < 1) by (split; [destruct (Qlt_le_dec 0 g); [assumption | exfalso; apply G0; lra]
-                                        | destruct (Qlt_le_dec g 1); [assumption | exfalso; apply Hg1; lra]]).
-      rewrite (grade_to_ok_mid g) by lra.
-      destruct Hside as [Hpos | [E | E]]; [| exfalso; auto | exfalso; auto].
-      symmetry. apply grade_to_ok_mid; nra.
+  intros rc c v Hv Hc Hside Hnt.
+  assert (Hu : 0 <= e_grade (scale_raw rc c (standardize v)) <= 1) by (apply scale_raw_unit; assumption).
+  destruct rc.
+  - (* repaired *)
+    unfold scale_raw in *. simpl andb in *.
+    destruct (okv_eqb (e_ok (standardize v)) OkTrue) eqn:E; simpl negb in *; cbv iota in *.
+    + exfalso. apply Hnt. simpl. destruct (e_ok (standardize v)); try discriminate. reflexivity.
+    + split; [exact Hu | reflexivity].
+  - (* as found *)
+    assert (Hside' : 0 < c \/ cfn_crisp v) by (destruct Hside as [R | H]; [discriminate | exact H]).
+    clear Hside Hu. unfold scale_raw in *. simpl andb in *. cbv iota in *.
+    destruct v as [| | |g m]; simpl in *.
+    + congruence.
+    + split; simpl; [lra | symmetry; apply grade_to_ok_0; lra].
+    + destruct Hside' as [Hpos | []]. split; simpl; [nra | symmetry; apply grade_to_ok_mid; nra].
+    + assert (Hg1 : ~ g == 1). { intro E. apply Hnt. apply grade_to_ok_1. exact E. }
+      split; simpl; [nra|].
+      destruct (Qeq_dec g 0) as [G0 | G0].
+      * rewrite (grade_to_ok_0 g G0). symmetry. apply grade_to_ok_0. rewrite G0. ring.
+      * assert (Hgm : 0 < g < 1) by (split; [destruct (Qlt_le_dec 0 g); [assumption | exfalso; apply G0; lra]
+                                          | destruct (Qlt_le_dec g 1); [assumption | exfalso; apply Hg1; lra]]).
+        rewrite (grade_to_ok_mid g) by lra.
+        destruct Hside' as [Hpos | [E | E]]; [| exfalso; auto | exfalso; auto].
+        symmetry. apply grade_to_ok_mid; nra.
 Qed.
 
 Lemma consolidate_loop_in : forall single f n rs r,
@@ -228,14 +242,12 @@ Proof.
     + destruct (IH _ _ H) as [Hin Hok]. split; [right; exact Hin | exact Hok].
 Qed.
 
-Lemma consolidate_cases : forall rc rs pruned f,
-  consolidate rc rs pruned f = pruned \/
-  (exists r, In r rs /\ e_ok r <> OkTrue /\
-             consolidate rc rs pruned f = (if rc then mkEntry (grade_to_ok (e_grade r)) (e_grade r) (e_msg r) else r)).
+Lemma consolidate_cases : forall rs pruned f,
+  consolidate rs pruned f = pruned \/ (In (consolidate rs pruned f) rs /\ e_ok (consolidate rs pruned f) <> OkTrue).
 Proof.
-  intros rc rs pruned f. unfold consolidate.
+  intros rs pruned f. unfold consolidate.
   destruct (consolidate_loop (length rs =? 1)%nat f 0 rs) as [r|] eqn:E; [right | left; reflexivity].
-  apply consolidate_loop_in in E. destruct E as [Hin Hok]. exists r. repeat split; assumption.
+  eapply consolidate_loop_in. exact E.
 Qed.
 
 Section Leaves.
@@ -251,40 +263,33 @@ Section Leaves.
     - apply wf_zero.
   Qed.
 
-  Lemma scale_raw_unit : forall c v, cfn_unit v -> 0 <= c <= 1 -> 0 <= e_grade (scale_raw c (standardize v)) <= 1.
-  Proof. intros c v Hv Hc. destruct v; simpl in *; nra. Qed.
-
   (* FormulaGrader / NumericalGrader / MatrixGrader: standardize_cfn_return, scaling, consolidate_results.
-     rc = true is the repaired consolidate_results (ok re-derived from the scaled grade): no side condition then. *)
+     rc = true is the repaired raw_check (ok re-derived from the scaled grade): no side condition then. *)
   Lemma formula_leaf_wf : forall rc f a l, alt_okp S Zc a -> Forall cfn_unit l ->
     (rc = true \/ 0 < alt_credit a \/ Forall cfn_crisp l) ->
     wf_ires S (formula_response rc f (alt_credit a) (alt_msg a) (alt_ok a) l).
   Proof.
     intros rc f a l Ha Hl Hside. unfold formula_response, wf_ires. simpl.
-    destruct (consolidate_cases rc (map (fun v => scale_raw (alt_credit a) (standardize v)) l)
-                                (mkEntry (alt_ok a) (alt_credit a) (alt_msg a)) f) as [E | [r [Hin [Hok E]]]].
+    destruct (consolidate_cases (map (fun v => scale_raw rc (alt_credit a) (standardize v)) l)
+                                (mkEntry (alt_ok a) (alt_credit a) (alt_msg a)) f) as [E | [Hin Hok]].
     - rewrite E. apply alt_triple_wf with (Zc := Zc). exact Ha.
-    - rewrite E. apply in_map_iff in Hin. destruct Hin as [v [Ev Hv]]. rewrite <- Ev in *.
-      rewrite Forall_forall in Hl.
-      pose proof (alt_credit_unit S Zc a Ha) as Hc.
-      destruct rc.
-      + apply strict_wf. split; simpl; [apply scale_raw_unit; [apply Hl; exact Hv | exact Hc] | reflexivity].
-      + apply strict_wf. apply scale_raw_failing_strict.
-        * apply Hl. exact Hv.
-        * exact Hc.
-        * destruct Hside as [R | [P | C]]; [discriminate | left; exact P | right; rewrite Forall_forall in C; apply C; exact Hv].
-        * exact Hok.
+    - apply in_map_iff in Hin. destruct Hin as [v [Ev Hv]]. rewrite <- Ev in *.
+      apply strict_wf. rewrite Forall_forall in Hl. apply scale_raw_failing_strict.
+      + apply Hl. exact Hv.
+      + apply alt_credit_unit with (S := S) (Zc := Zc). exact Ha.
+      + destruct Hside as [R | [P | C]]; [left; exact R | right; left; exact P
+                                          | right; right; rewrite Forall_forall in C; apply C; exact Hv].
+      + exact Hok.
   Qed.
 
   (* SumGrader: no scaling, so no side condition *)
-  Lemma sum_leaf_wf : forall rc f l, Forall cfn_unit l -> wf_ires S (sum_response rc f l).
+  Lemma sum_leaf_wf : forall f l, Forall cfn_unit l -> wf_ires S (sum_response f l).
   Proof.
-    intros rc f l Hl. unfold sum_response, wf_ires. simpl.
-    destruct (consolidate_cases rc (map standardize l) (mkEntry OkTrue 1 []) f) as [E | [r [Hin [_ E]]]].
+    intros f l Hl. unfold sum_response, wf_ires. simpl.
+    destruct (consolidate_cases (map standardize l) (mkEntry OkTrue 1 []) f) as [E | [Hin _]].
     - rewrite E. split; simpl; [lra | left; reflexivity].
-    - rewrite E. apply in_map_iff in Hin. destruct Hin as [v [Ev Hv]]. rewrite <- Ev.
-      rewrite Forall_forall in Hl. destruct (standardize_strict S v (Hl v Hv)) as [[Hg Hk] Hw].
-      destruct rc; [apply strict_wf; split; simpl; [exact Hg | reflexivity] | exact Hw].
+    - apply in_map_iff in Hin. destruct Hin as [v [Ev Hv]]. rewrite <- Ev.
+      rewrite Forall_forall in Hl. apply standardize_strict. apply Hl. exact Hv.
   Qed.
 
   Lemma matrix_err_wf : forall c k m r, matrix_err c k m = Ret r -> wf_ires S r.
